@@ -76,10 +76,15 @@ def main():
                 dtxt = open(demo).read().replace(f'/tmp/wt/{pid}', root)
                 dcopy = os.path.join(tmp, f'demo_{n}.py')
                 open(dcopy, 'w').write(dtxt)
-                d = sh(['/venv/bin/python', dcopy], env=env, timeout=600, cwd=root)
-                entry['demo_exit'] = d.returncode
-                entry['demo_violated'] = 'VIOLATED' in d.stdout
-                entry['demo_line'] = next((ln for ln in d.stdout.splitlines() if ln.startswith('VIOLATED')), d.stdout[-200:] + d.stderr[-200:])[:300]
+                try:
+                    d = sh(['/venv/bin/python', dcopy], env=env, timeout=240, cwd=root)
+                    entry['demo_exit'] = d.returncode
+                    entry['demo_violated'] = 'VIOLATED' in d.stdout
+                    entry['demo_line'] = next((ln for ln in d.stdout.splitlines() if ln.startswith('VIOLATED')), d.stdout[-200:] + d.stderr[-200:])[:300]
+                except subprocess.TimeoutExpired:
+                    entry['demo_exit'] = None
+                    entry['demo_violated'] = False
+                    entry['demo_line'] = 'demonstration script did not finish within 240 s on this machine (it uses real-time waits)'
                 if suite:
                     s = sh(['/venv/bin/python', '-m', 'pytest', '-q', '-p', 'no:cacheprovider', '--timeout=900', '-x', 'tests'], env=env, cwd=root, timeout=3000)
                     entry['suite'] = s.stdout.strip().splitlines()[-1][:120] if s.stdout.strip() else s.stderr[-120:]
